@@ -7,13 +7,15 @@ M_NOTE = ("Trusted: the MIR->SMT executor (mirsym) and its closed list of summar
           "z3 4.8.12. R-mode obligations are about the exact-real semantics of the MIR expressions (rounding outside the claim); sat models are rounded to doubles and replayed against the real build before being reported.")
 CHECKS = {
  "C05": ("mirsym+kani", "symbolic execution of optimise_state's MIR per accept/reject history + z3 (all settings symbolic, kt_start = 0), and Kani/CBMC on the compiled code; scripted State + specification monitor", "5 C05", K_NOTE),
- "C06": ("kani", "bounded model checking (Kani/CBMC) of the real optimise_state: bit-exact held-vector monitor over symbolic accept/reject histories", "5 C06", K_NOTE),
- "C07": ("kani", "bounded model checking (Kani/CBMC): decisions vs Metropolis rule with outcome-forcing exp stub; argument handed to exp checked", "5 C07", K_NOTE),
- "C18": ("kani", "bounded model checking (Kani/CBMC): per-loop temperature observed through the exp/powf stub arguments", "5 C18", K_NOTE),
- "C19": ("kani", "bounded model checking (Kani/CBMC): every proposal's move size vs max_step_size*range/2 over multi-loop histories", "5 C19", K_NOTE),
- "C20": ("kani", "bounded model checking (Kani/CBMC): panic freedom and proposal counts for concrete (steps, inner_steps) edges, convergence rule", "5 C20", K_NOTE),
+ "C06": ("mirsym+kani", "symbolic execution of optimise_state's MIR per accept/reject history + z3, and Kani/CBMC on the compiled code (scripted State + specification monitor): bit-exact held-vector monitor over symbolic accept/reject histories", "5 C06", K_NOTE),
+ "C07": ("mirsym+kani", "symbolic execution of optimise_state's MIR per accept/reject history + z3, and Kani/CBMC on the compiled code (scripted State + specification monitor): decisions vs the Metropolis rule with the same draw and the same uninterpreted exp", "5 C07", K_NOTE),
+ "C18": ("mirsym+kani", "symbolic execution of optimise_state's MIR per accept/reject history + z3, and Kani/CBMC on the compiled code (scripted State + specification monitor): per-loop temperature of the specification vs the code's, through the acceptance decisions and the exp/powf arguments", "5 C18", K_NOTE),
+ "C19": ("mirsym+kani", "symbolic execution of optimise_state's MIR per accept/reject history + z3, and Kani/CBMC on the compiled code (scripted State + specification monitor): every proposal's move size vs max_step_size*range/2 over multi-loop histories, symbolic draws", "5 C19", K_NOTE),
+ "C20": ("mirsym+kani", "symbolic execution of optimise_state's MIR per accept/reject history + z3, and Kani/CBMC on the compiled code (scripted State + specification monitor): panic freedom, proposal counts for (steps, inner_steps) edges, convergence rule", "5 C20", K_NOTE),
  "C12": ("mirsym", "symbolic execution of the MIR of Line2/Atom2/LineShape/MolecularShape2::intersects + z3 (nlsat) against exact geometry", "5 C12", M_NOTE),
  "C13": ("mirsym", "symbolic execution of the MIR of LJ2::energy / lj2_ops::mul / LJShape2::energy + z3 against the shifted truncated 12-6 law", "5 C13", M_NOTE),
+ "C01": ("mirsym", "symbolic execution of check_intersection's MIR (recording opaque shape) to obtain the exact set of tested pairs, shell guards and prefilter; per image offset an nlsat query 'neighbouring tests negative and this image truly overlaps', real-valued offsets beyond the window; z3 4.8 + z3 5.1 portfolio", "4 C01", M_NOTE),
+ "C17": ("mirsym", "symbolic execution of Transform2::from_operations' MIR over components of symbolic characters, compared by z3 with a reference transducer written from the grammar; panic sites unreachable", "4 C17", M_NOTE),
  "C02": ("mirsym", "symbolic execution of PackedState::score (shape opaque), LineShape::from_radial+area, MolecularShape2::area/from_trimer MIR + z3: score formula, polygon shoelace area, disc formulas, trimer validity query (known findings)", "5 C02", M_NOTE),
  "C08": ("mirsym", "MIR execution of get_degrees_of_freedom/get_basis/generate_basis/set_value/reset_value/from_wyckoff/from_family + z3: handles, ranges, one-step induction, initial validity; optimise_state histories keep proposals in range", "5 C08", M_NOTE),
  "C09": ("mirsym+kani", "sequential core only: Clone fidelity and seed dataflow from MIR + z3, Kani pointer-precise clone isolation harnesses; thread schedules NOT explored", "5 C09", M_NOTE + " " + K_NOTE),
